@@ -23,6 +23,34 @@ import (
 type contendSpec struct {
 	Rounds     int `json:"rounds"`
 	Goroutines int `json:"goroutines"`
+	LongMs     int `json:"long_ms"` // > 0: also wait for a dependency that takes this long (C02: a call waits as long as it takes)
+}
+
+var longDone int32
+
+func longDep() {
+	time.Sleep(time.Duration(longSpecMs) * time.Millisecond)
+	atomic.StoreInt32(&longDone, 1)
+}
+
+var longSpecMs int
+
+// a call returns only after what it named has finished, however long that takes: no give-up by the clock
+func longProbe(ms int) string {
+	if ms <= 0 {
+		return ""
+	}
+	longSpecMs = ms
+	t0 := time.Now()
+	panicked := false
+	func() {
+		defer func() { panicked = recover() != nil }()
+		mg.SerialDeps(longDep)
+	}()
+	if panicked || atomic.LoadInt32(&longDone) != 1 {
+		return fmt.Sprintf("SerialDeps(dependency taking %d ms) ended after %d ms (panicked: %v) while the dependency had not finished", ms, time.Since(t0).Milliseconds(), panicked)
+	}
+	return ""
 }
 
 var contendCount []int32
@@ -72,7 +100,7 @@ func contend(spec contendSpec) {
 	json.NewEncoder(os.Stdout).Encode(map[string]interface{}{"keys": len(contendCount), "not_once": bad,
 		"generic_runs":   []int32{atomic.LoadInt32(&genericRuns[0]), atomic.LoadInt32(&genericRuns[1])},
 		"invalid_member": invalidProbe(), "name_prefix": namesProbe(), "custom_fn": customProbe(), "verbose_late": verboseProbe(),
-		"wide": wideProbe(), "ctx_err": ctxErrProbe(), "escaped_names": escapedProbe(), "suffix_and_empty_args": suffixProbe()})
+		"wide": wideProbe(), "ctx_err": ctxErrProbe(), "escaped_names": escapedProbe(), "suffix_and_empty_args": suffixProbe(), "long_wait": longProbe(spec.LongMs)})
 }
 
 // ---- a function of package ".../tasks.V2" and the method of type V2 in package ".../tasks" have
